@@ -57,6 +57,48 @@ def workloads(rng, nkeys, cap, tier):
     return out
 
 
+def unique_workloads(rng, nload, cap, tier):
+    """every delete hits a different key, so that the loss of ANY single tombstone is visible as a resurrection
+    (a key deleted twice is still suppressed by its older tombstone).  Only `nload` keys fit on the device with a
+    flushed copy: they are placed at the positions next to the page boundaries and the ring wrap-around, the other
+    positions get keys that were never written.  Batches of 10 (and random sizes) straddle the page boundaries
+    inside one append call; totals run up to and beyond the capacity of the ring."""
+    totals = [250, 258, 300, cap - 1, cap, cap + 1, cap + 9]
+    if cap > 256:
+        totals += [cap - 256 + 3, cap + 256 + 5]
+    if tier != "thorough":
+        totals = [x for x in totals if x in (258, cap, cap + 9) or rng.random() < 0.35]
+    out = []
+    for total in sorted(set(x for x in totals if x > 0)):
+        for style in (("tens",) if tier != "thorough" else ("tens", "random", "singles-near-boundary")):
+            hot = [p for p in range(1, total + 1) if min(p % 256, 256 - p % 256) <= 40]
+            cold = [p for p in range(1, total + 1) if p not in set(hot)]
+            order = (hot + cold)
+            keys_at = {}
+            for i, pos in enumerate(order):
+                # keys 1..nload have a copy on disk, the rest never existed (ids 900..999 are reserved by the
+                # harness's hasher)
+                keys_at[pos] = i + 1 if i + 1 < 900 else i + 101
+            seq = [keys_at[p] for p in range(1, total + 1)]
+            ops = [{"a": "load", "n": min(nload, total)}]
+            i = 0
+            restart_at = rng.choice([None, 256 + rng.randint(-3, 3), total - rng.randint(1, 20)])
+            while i < len(seq):
+                n = 10 if style == "tens" else rng.choice([1, 3, 10, 33, 64])
+                if style == "singles-near-boundary" and min((i + 1) % 256, 256 - (i + 1) % 256) > 12:
+                    n = 50
+                ops.append({"a": "del", "ks": seq[i:i + n]})
+                if restart_at is not None and i < restart_at <= i + n:
+                    ops += [{"a": "reopen"}, {"a": "probe"}]
+                i += n
+            ops += [{"a": "reopen"}, {"a": "probe"}]
+            # a few more after the restart (the tail must have been found), then again
+            extra = [total + 201 + j for j in range(rng.randint(1, 12))]
+            ops += [{"a": "del", "ks": extra}, {"a": "reopen"}, {"a": "probe"}]
+            out.append({"ops": ops, "nkeys": total + 201 + len(extra)})
+    return out
+
+
 def run_device(d, blocks, block_pages, tier, seed):
     nkeys = 40
     os.makedirs(d, exist_ok=True)
@@ -70,6 +112,10 @@ def run_device(d, blocks, block_pages, tier, seed):
     log_pages = -(-(total_pages + max(1, -(-total_pages // 256)) + 1) // 256)
     rng = random.Random(seed * 31 + blocks)
     ws = workloads(rng, nkeys, log_pages * 256, tier)
+    # one-page entries: block_pages - 1 per block; keep two blocks free so that nothing is reclaimed
+    nload = (blocks - 2) * (block_pages - 1)
+    ws += unique_workloads(rng, nload, log_pages * 256, tier)
+    nkeys = max([nkeys] + [w.get("nkeys", 0) for w in ws])
     wpath = os.path.join(d, "workloads.txt")
     with open(wpath, "w") as f:
         for w in ws:
